@@ -233,3 +233,146 @@ func vxH_C08_history() {
 		store.Close()
 	}
 }
+
+func init() { vxRegister("vxH_C08_child", vxH_C08_child) }
+
+// vxH_C08_child: merge operands in a CHILD collection of a store-backed
+// collection whose LowerLevelUpdate (= Store.Persist, wired by hand as the
+// API documents) can be stalled, so that a persistence round is in flight
+// while later batches go through merger cycles. Batches: Set / Merge / Del
+// on the child's key k, or a Set on another child key (a second segment, so
+// the merger really merges); between batches nothing, a merger cycle, or a
+// drain. At the end (stall released, drained) the collection's child and
+// the store's child both read the reference fold, and so does the
+// collection's child before the release.
+func vxH_C08_child() {
+	steps := 3
+	if vxTier() == 1 {
+		steps = 4
+	}
+	fs := vxNewFS()
+	so := vxStoreOptions(fs)
+	so.CollectionOptions.MergeOperator = vxAppendMO{}
+	so.CompactionLevelMaxSegments = 1
+	so.CompactionPercentage = -1
+	po := StorePersistOptions{CompactionConcern: CompactionConcern(vxChoose(3))}
+	store, err := OpenStore(fs.dir, so)
+	vxAssert("open-ok", err == nil)
+	llInit, err := store.Snapshot()
+	vxAssert("store-snapshot-ok", err == nil)
+	stallAt := -1
+	if vxChoose(2) == 1 {
+		stallAt = 0
+	}
+	calls := 0
+	release := make(chan struct{})
+	co := so.CollectionOptions
+	co.CachePersisted = vxChoose(2) == 1
+	co.LowerLevelInit = llInit
+	co.LowerLevelUpdate = func(higher Snapshot) (Snapshot, error) {
+		n := calls
+		calls++
+		if n == stallAt {
+			<-release
+		}
+		return store.Persist(higher, po)
+	}
+	coll, err := NewCollection(co)
+	vxAssert("new-ok", err == nil)
+	coll.Start()
+	var K vxKey
+	K.n = 1
+	K.b[0] = 'k'
+	kb := vxKeyBytes(K)
+	var layers [][]vxEnt
+	for s := 0; s < steps; s++ {
+		var e vxEnt
+		e.k = K
+		nops := 4
+		if s == 0 {
+			nops = 2
+		}
+		switch vxChoose(nops) {
+		case 0:
+			e.op = OperationSet
+			e.v.n = 1
+			e.v.b[0] = vxU8()
+		case 1:
+			e.op = OperationMerge
+			e.v.n = 1
+			e.v.b[0] = vxU8()
+		case 2:
+			e.op = OperationSet
+			e.k.b[0] = 'z'
+			e.v.n = 1
+			e.v.b[0] = 1
+		default:
+			e.op = OperationDel
+		}
+		b, berr := coll.NewBatch(1, 8)
+		vxAssert("newbatch-ok", berr == nil)
+		cb, cerr := b.NewChildCollectionBatch("a", BatchOptions{TotalOps: 2, TotalKeyValBytes: 16})
+		vxAssert("childbatch-ok", cerr == nil)
+		vxFillBatch(cb, []vxEnt{e})
+		vxAssert("executebatch-ok", coll.ExecuteBatch(b, WriteOptions{}) == nil)
+		b.Close()
+		layers = append(layers, []vxEnt{e})
+		act := 0
+		if s > 0 {
+			act = vxChoose(3)
+		} else {
+			act = 1 + vxChoose(2)
+		}
+		switch act {
+		case 1:
+			coll.(*collection).NotifyMerger("go", true)
+			vxQuiesce()
+		case 2:
+			vxDrain(coll)
+		}
+	}
+	ref := vxRefFold(K, layers...)
+	readChild := func(tag string, snap Snapshot) {
+		cs, cerr := snap.ChildCollectionSnapshot("a")
+		vxAssert(tag+"-child-snapshot-ok", cerr == nil && cs != nil)
+		if cs == nil {
+			return
+		}
+		got, gerr := cs.Get(kb, ReadOptions{})
+		vxAssert(tag+"-child-get-ok", gerr == nil)
+		vxObserveBytes(tag+"-child-get", got)
+		vxAssert(tag+"-child-get-equals-fold", vxFoldIs(got, ref))
+		it, ierr := cs.StartIterator(kb, nil, IteratorOptions{})
+		vxAssert(tag+"-child-iter-ok", ierr == nil)
+		if it != nil {
+			ik, iv, cerr := it.Current()
+			if cerr == ErrIteratorDone {
+				vxAssert(tag+"-child-iter-done-means-absent", vxNot(ref.live))
+			} else {
+				atK := vxKeyEq(vxKeyOf(ik), K)
+				vxAssert(tag+"-child-iter-entry-equals-fold", vxAnd(vxImplies(atK, vxFoldIs(iv, ref)), vxImplies(ref.live, atK)))
+			}
+			it.Close()
+		}
+		cs.Close()
+	}
+	snap, serr := coll.Snapshot()
+	vxAssert("snapshot-ok", serr == nil)
+	readChild("in-flight", snap)
+	snap.Close()
+	if stallAt >= 0 {
+		close(release)
+	}
+	vxDrain(coll)
+	vxDrain(coll)
+	snap, serr = coll.Snapshot()
+	vxAssert("snapshot-ok", serr == nil)
+	readChild("drained", snap)
+	snap.Close()
+	ss, sserr := store.Snapshot()
+	vxAssert("store-snapshot-ok", sserr == nil)
+	readChild("store", ss)
+	ss.Close()
+	coll.Close()
+	store.Close()
+}
